@@ -8,6 +8,7 @@ import (
 	"math/big"
 	"os"
 	"sort"
+	"strconv"
 	"strings"
 
 	"golang.org/x/tools/go/ssa"
@@ -858,6 +859,26 @@ func (fr *frame) collectDefs() {
 
 // lookupName resolves a source-level variable name at a program point.
 func (fr *frame) lookupName(name string, b *ssa.BasicBlock, idx int) (ssa.Value, bool, bool) {
+	// rangeindex<N>: the hidden index of the range loop with ordinal N (an enclosing loop)
+	if strings.HasPrefix(name, "rangeindex") && len(name) > len("rangeindex") {
+		if n, err := strconv.Atoi(name[len("rangeindex"):]); err == nil {
+			for h, li := range fr.loops {
+				if li.ordinal != n || !(h == b || h.Dominates(b)) {
+					continue
+				}
+				for _, in := range h.Instrs {
+					if p, ok := in.(*ssa.Phi); ok {
+						if p.Comment == "rangeindex" {
+							return p, false, true
+						}
+					} else {
+						break
+					}
+				}
+			}
+			return nil, false, false
+		}
+	}
 	cands := fr.defs[name]
 	if os.Getenv("VERIF_DEBUG") == "3" {
 		for _, c := range cands {
